@@ -2,6 +2,7 @@ package sidecarsim
 
 import (
 	"fmt"
+	"os"
 	"runtime"
 	"strings"
 	"sync"
@@ -29,6 +30,10 @@ func InBubble(t *testing.T, f func()) (problem string) {
 		if r := recover(); r != nil {
 			msg := fmt.Sprint(r)
 			if strings.Contains(msg, "deadlock") {
+				if os.Getenv("KVSIM_DEADLOCK_DUMP") != "" {
+					buf := make([]byte, 1<<20)
+					fmt.Println(string(buf[:runtime.Stack(buf, true)]))
+				}
 				problem = "deadlock: " + msg
 				return
 			}
